@@ -8,7 +8,7 @@
  * restricted to what property C06 speaks about: no length modifier on c s p (%lc / %ls are wide-character
  * conversions, other combinations are undefined), no floating conversions, no %n.
  *
- * ref_parse() walks the format ONCE, one character per iteration (a flat state machine, so that a bounded
+ * ref_parse() walks the format ONCE (ref_token(): one token of it), one character per iteration (a flat state machine, so that a bounded
  * unit unwinds a single loop), consumes the variadic arguments from 64-bit slots exactly as the directives
  * prescribe (p5: `*` takes an int; p7: the length modifier names the argument type) and produces the sequence
  * of output EVENTS (literal character | integer conversion | string/char conversion); the event number `ksel`
@@ -43,19 +43,25 @@ struct ref_result
     int literal_digits;     /* some width or precision is written with digits */
     int negative_star_width;/* some `*` width argument is negative */
     int star_int_min;       /* some `*` width argument is INT_MIN (cannot be negated) */
+    int consumed;           /* one-token mode: characters of the token (literal character = 1, directive = '%' .. conv) */
     struct ref_event ev;    /* event number ksel */
 };
 
-static inline struct ref_result ref_parse(const char *f, int maxlen, const unsigned long long *slots, int nslots, long long ksel)
+static inline struct ref_result ref_parse_x(const char *f, int maxlen, const unsigned long long *slots, int nslots, long long ksel, int one_token)
 {
     enum { S_TEXT, S_FLAGS, S_WIDTH0, S_WIDTHN, S_DOT, S_PREC0, S_PRECN, S_MOD, S_MOD_H2, S_MOD_L2, S_CONV };
-    struct ref_result R;
-    struct ref_event D; /* directive being read */
+    /* all state in scalars (cheap for the symbolic execution of a bounded unit); structs are assembled at the end */
     int state = S_TEXT, ai = 0, mod = REF_MOD_NONE, bare = 1, done = 0;
-    R.valid = 1, R.nev = 0, R.nlit = 0, R.nargs = 0, R.literal_digits = 0, R.negative_star_width = 0, R.star_int_min = 0;
-    R.ev.kind = REF_EV_NONE, R.ev.c = 0, R.ev.u = 0, R.ev.is_signed = 0, R.ev.base = 0, R.ev.width = 0, R.ev.prec = 0;
-    R.ev.flags = 0, R.ev.has_prec = 0, R.ev.upper = 0, R.ev.conv = 0;
-    D = R.ev;
+    int valid = 1, literal_digits = 0, negative_star_width = 0, star_int_min = 0;
+    long long nev = 0, nlit = 0;
+    int consumed = 0;
+    /* directive being read */
+    unsigned d_flags = 0;
+    int d_width = 0, d_prec = 0, d_has_prec = 0;
+    /* the selected event */
+    int e_kind = REF_EV_NONE, e_c = 0, e_signed = 0, e_base = 0, e_width = 0, e_prec = 0, e_has_prec = 0, e_upper = 0, e_conv = 0;
+    unsigned e_flags = 0;
+    unsigned long long e_u = 0;
     for (int i = 0; i <= maxlen && !done; i++)
     {
         char c = f[i];
@@ -69,13 +75,15 @@ static inline struct ref_result ref_parse(const char *f, int maxlen, const unsig
             }
             if (c != '%')
             {
-                if (R.nev == ksel)
-                    R.ev.kind = REF_EV_CHAR, R.ev.c = c;
-                R.nev++, R.nlit++;
+                if (nev == ksel)
+                    e_kind = REF_EV_CHAR, e_c = c;
+                nev++, nlit++;
+                if (one_token)
+                    done = 1, consumed = i + 1;
                 continue;
             }
             state = S_FLAGS, mod = REF_MOD_NONE, bare = 1;
-            D.flags = 0, D.width = 0, D.prec = 0, D.has_prec = 0, D.upper = 0;
+            d_flags = 0, d_width = 0, d_prec = 0, d_has_prec = 0;
             continue;
         }
         if (state == S_FLAGS)
@@ -83,7 +91,7 @@ static inline struct ref_result ref_parse(const char *f, int maxlen, const unsig
             unsigned fl = c == '-' ? ISO_F_MINUS : c == '+' ? ISO_F_PLUS : c == ' ' ? ISO_F_SPACE : c == '#' ? ISO_F_HASH : c == '0' ? ISO_F_ZERO : 0;
             if (fl)
             {
-                D.flags |= fl, bare = 0;
+                d_flags |= fl, bare = 0;
                 continue;
             }
             state = S_WIDTH0;
@@ -95,16 +103,16 @@ static inline struct ref_result ref_parse(const char *f, int maxlen, const unsig
                 int w = ai < nslots ? (int)slots[ai] : 0;
                 ai++, bare = 0;
                 if (w == INT_MIN)
-                    R.star_int_min = 1;
+                    star_int_min = 1, w = 0;
                 else if (w < 0) /* p5: a negative field width argument is taken as a - flag followed by a positive field width */
-                    D.flags |= ISO_F_MINUS, w = -w, R.negative_star_width = 1;
-                D.width = w;
+                    d_flags |= ISO_F_MINUS, w = -w, negative_star_width = 1;
+                d_width = w;
                 state = S_DOT;
                 continue;
             }
             if (isdig)
             {
-                D.width = c - '0', R.literal_digits = 1, bare = 0, state = S_WIDTHN;
+                d_width = c - '0', literal_digits = 1, bare = 0, state = S_WIDTHN;
                 continue;
             }
             state = S_DOT;
@@ -113,7 +121,7 @@ static inline struct ref_result ref_parse(const char *f, int maxlen, const unsig
         {
             if (isdig)
             {
-                D.width = D.width * 10 + (c - '0'); /* at most maxlen digits: no overflow for maxlen <= 9 */
+                d_width = d_width * 10 + (c - '0'); /* at most maxlen digits: no overflow for maxlen <= 9 */
                 continue;
             }
             state = S_DOT;
@@ -122,7 +130,7 @@ static inline struct ref_result ref_parse(const char *f, int maxlen, const unsig
         {
             if (c == '.')
             {
-                D.has_prec = 1, D.prec = 0, bare = 0, state = S_PREC0; /* p4: if only the period is specified, the precision is taken as zero */
+                d_has_prec = 1, d_prec = 0, bare = 0, state = S_PREC0; /* p4: if only the period is specified, the precision is taken as zero */
                 continue;
             }
             state = S_MOD;
@@ -134,15 +142,15 @@ static inline struct ref_result ref_parse(const char *f, int maxlen, const unsig
                 int p = ai < nslots ? (int)slots[ai] : 0;
                 ai++;
                 if (p < 0) /* p5: a negative precision argument is taken as if the precision were omitted */
-                    D.has_prec = 0, D.prec = 0;
+                    d_has_prec = 0, d_prec = 0;
                 else
-                    D.prec = p;
+                    d_prec = p;
                 state = S_MOD;
                 continue;
             }
             if (isdig)
             {
-                D.prec = c - '0', R.literal_digits = 1, state = S_PRECN;
+                d_prec = c - '0', literal_digits = 1, state = S_PRECN;
                 continue;
             }
             state = S_MOD;
@@ -151,7 +159,7 @@ static inline struct ref_result ref_parse(const char *f, int maxlen, const unsig
         {
             if (isdig)
             {
-                D.prec = D.prec * 10 + (c - '0');
+                d_prec = d_prec * 10 + (c - '0');
                 continue;
             }
             state = S_MOD;
@@ -195,10 +203,10 @@ static inline struct ref_result ref_parse(const char *f, int maxlen, const unsig
         }
         /* state == S_CONV: c is the conversion specifier */
         {
-            unsigned long long s = 0;
+            unsigned long long s = 0, v = 0;
             int is_int = c == 'd' || c == 'i' || c == 'u' || c == 'o' || c == 'x' || c == 'X';
             int sg = c == 'd' || c == 'i';
-            D.conv = c;
+            int kind = REF_EV_NONE, base = 0, ok = 1;
             if (is_int || c == 'c' || c == 's' || c == 'p')
             {
                 s = ai < nslots ? slots[ai] : 0;
@@ -207,7 +215,6 @@ static inline struct ref_result ref_parse(const char *f, int maxlen, const unsig
             if (is_int)
             {
                 /* p7: the argument type named by the length modifier; p8: d,i take a signed, o u x X an unsigned argument */
-                unsigned long long v;
                 if (sg)
                     v = mod == REF_MOD_NONE ? (unsigned long long)(long long)(int)s
                         : mod == REF_MOD_HH ? (unsigned long long)(long long)(signed char)(int)s
@@ -218,41 +225,60 @@ static inline struct ref_result ref_parse(const char *f, int maxlen, const unsig
                         : mod == REF_MOD_HH ? (unsigned long long)(unsigned char)(unsigned)s
                         : mod == REF_MOD_H  ? (unsigned long long)(unsigned short)(unsigned)s
                                             : s;
-                D.kind = REF_EV_INT, D.u = v, D.is_signed = sg, D.base = c == 'o' ? 8 : (c == 'x' || c == 'X') ? 16 : 10;
-                D.upper = c == 'X';
+                kind = REF_EV_INT, base = c == 'o' ? 8 : (c == 'x' || c == 'X') ? 16 : 10;
             }
             else if (c == 'c' || c == 's' || c == 'p')
             {
                 if (mod != REF_MOD_NONE)
-                    R.valid = 0;
-                D.kind = c == 'p' ? REF_EV_INT : REF_EV_STR;
-                D.u = c == 'c' ? (unsigned long long)(unsigned)(int)s : s;
-                D.is_signed = 0, D.base = c == 'p' ? 16 : 0;
+                    ok = 0;
+                kind = c == 'p' ? REF_EV_INT : REF_EV_STR;
+                v = c == 'c' ? (unsigned long long)(unsigned)(int)s : s;
+                base = c == 'p' ? 16 : 0;
             }
             else if (c == '%' && bare)
-            {
-                D.kind = REF_EV_CHAR, D.c = '%';
-            }
+                kind = REF_EV_CHAR;
             else
-                R.valid = 0; /* includes c == 0: the format ends inside a directive */
-            if (R.valid)
+                ok = 0; /* includes c == 0: the format ends inside a directive */
+            if (!ok)
+                valid = 0;
+            else
             {
-                if (R.nev == ksel)
-                    R.ev = D;
-                R.nev++;
-                if (D.kind == REF_EV_CHAR)
-                    R.nlit++;
+                if (nev == ksel)
+                {
+                    e_kind = kind, e_c = '%', e_u = v, e_signed = sg, e_base = base, e_width = d_width, e_prec = d_prec;
+                    e_has_prec = d_has_prec, e_flags = d_flags, e_upper = c == 'X', e_conv = c;
+                }
+                nev++;
+                if (kind == REF_EV_CHAR)
+                    nlit++;
             }
-            if (c == 0)
-                done = 1;
+            if (c == 0 || one_token)
+                done = 1, consumed = i + 1;
             state = S_TEXT;
         }
     }
     if (!done || state != S_TEXT)
-        R.valid = 0; /* no terminator within maxlen + 1 characters */
-    R.nargs = ai;
+        valid = 0; /* no terminator within maxlen + 1 characters */
     if (ai > nslots)
-        R.valid = 0;
+        valid = 0;
+    struct ref_result R;
+    R.valid = valid, R.nev = nev, R.nlit = nlit, R.nargs = ai, R.literal_digits = literal_digits;
+    R.negative_star_width = negative_star_width, R.star_int_min = star_int_min, R.consumed = consumed;
+    R.ev.kind = e_kind, R.ev.c = e_c, R.ev.u = e_u, R.ev.is_signed = e_signed, R.ev.base = e_base, R.ev.width = e_width;
+    R.ev.prec = e_prec, R.ev.flags = e_flags, R.ev.has_prec = e_has_prec, R.ev.upper = e_upper, R.ev.conv = e_conv;
     return R;
+}
+
+/* the whole format */
+static inline struct ref_result ref_parse(const char *f, int maxlen, const unsigned long long *slots, int nslots, long long ksel)
+{
+    return ref_parse_x(f, maxlen, slots, nslots, ksel, 0);
+}
+
+/* ONE token (an ordinary character or one directive of at most maxlen characters) at f; its event is R.ev
+ * (R.nev == 1 when valid), R.consumed its length, R.nargs the argument slots it takes from slots[0..] */
+static inline struct ref_result ref_token(const char *f, int maxlen, const unsigned long long *slots, int nslots)
+{
+    return ref_parse_x(f, maxlen, slots, nslots, 0, 1);
 }
 #endif
